@@ -237,6 +237,11 @@ def rejection_jobs():
             ('unknown-method', yaml_for([f'{P}.Main.NoSuchRpc'], False)),
             ('unknown-service', yaml_for([f'{P}.Nope.GetA'], False)),
             ('other-version', yaml_for(['acme.sel.v2.Main.GetA'], False)),
+            # settings filed under *another* version of the API (alone, or after a valid entry for this version)
+            ('entry-for-other-version', yaml_for([f'{P}.Main.GetA'], False, version='acme.sel.v2')),
+            ('entry-for-other-version/unknown-method', yaml_for(['acme.sel.v2.Main.NoSuchRpc'], False, version='acme.sel.v2')),
+            ('valid-entry+entry-for-other-version', yaml_for([f'{P}.Main.GetA'], False,
+                                                             extra='  - version: acme.sel.v2\n    python_settings:\n      common:\n        selective_gapic_generation:\n          methods:\n          - acme.sel.v2.Main.NoSuchRpc\n')),
             ('duplicate-version', yaml_for([f'{P}.Main.GetA'], False,
                                            extra=f'  - version: {P}\n    python_settings:\n      common:\n        selective_gapic_generation:\n          methods:\n          - {P}.Main.GetB\n')),
     ):
@@ -316,6 +321,16 @@ def run(ctx, only=None):
                 ms = info['methods'].get(exp_client, [])
                 if exp_m not in ms or other in ms:
                     bad('internal-method-name', f'{svc}.{rpc}', f'{exp_client} offers {[m for m in ms if py in m]}, expected {exp_m}')
+                # the asyncio client follows the same naming
+                exp_async = exp_client.replace('Client', 'AsyncClient')
+                if job['_g'] != 1:
+                    pass        # extended-operation methods exist on the asyncio client only in their *_unary form: not judged
+                elif exp_async not in info.get('clients', []):
+                    bad('internal-client-name', f'{svc}/async', f'clients {info.get("clients")} expected {exp_async}')
+                else:
+                    ams = info['methods'].get(exp_async, [])
+                    if exp_m not in ams or other in ams:
+                        bad('internal-method-name', f'{svc}.{rpc}/async', f'{exp_async} offers {[m for m in ams if py in m]}, expected {exp_m}')
         else:
             must, amb = job['_keep'], job['_amb']
             missing = must - present
